@@ -45,10 +45,11 @@ p = os.path.join(ROOT, "DESIGN.md")
 t = open(p).read()
 s2, n2 = seed_table(2)
 s3, n3 = seed_table(3)
-for tag, body in (("fixed", fixed), ("findings", findings), ("seeds2", s2), ("seeds3", s3)):
+s4, n4 = seed_table(4)
+for tag, body in (("fixed", fixed), ("findings", findings), ("seeds2", s2), ("seeds3", s3), ("seeds4", s4)):
     pat = re.compile(r"(<!-- gen:%s -->\n).*?(<!-- /gen -->)" % tag, re.S)
     assert pat.search(t), "marker gen:%s missing in DESIGN.md" % tag
     t = pat.sub(lambda m: m.group(1) + body + m.group(2), t)
 open(p, "w").write(t)
-print("DESIGN.md: seeds round2=%d round3=%d;" % (n2, n3), end=" ")
+print("DESIGN.md: seeds round2=%d round3=%d round4=%d;" % (n2, n3, n4), end=" ")
 print("%d fixed rows, %d findings in %d properties" % (len(rows), len(kf["findings"]), len(byp)))
